@@ -128,7 +128,7 @@ def h_res(cfg):
                     check('c06.foreign-release-harmless', res.count == snap[0] and list(res.users) == snap[1])
             except Interrupt as it:
                 on_interrupt(u, r, it)
-        elif script in ('with', 'withexc'):
+        elif script in ('with', 'withexc', 'withgiveup'):
             r = None
             try:
                 seq[0] += 1
@@ -143,10 +143,21 @@ def h_res(cfg):
                 r['ev'] = cm
                 reqs.append(r)
                 with cm as req:
-                    yield req
-                    yield env.timeout(num('h%d' % u))
-                    if script == 'withexc':
-                        raise Boom()
+                    if script == 'withgiveup':
+                        # wait with limited patience inside the with-block; withdraw explicitly, then leave the block
+                        # (which withdraws / releases once more)
+                        yield req | env.timeout(num('w%d' % u))
+                        if not req.triggered:
+                            req.cancel()
+                            r['state'] = 'cancelled'
+                            cover('cancel-then-with-exit')
+                        else:
+                            yield env.timeout(num('h%d' % u))
+                    else:
+                        yield req
+                        yield env.timeout(num('h%d' % u))
+                        if script == 'withexc':
+                            raise Boom()
             except Boom:
                 cover('with-exit-by-exception')
             except Interrupt as it:
@@ -280,6 +291,10 @@ def jobs(tier, seed):
                 js.append({'harness': 'res', 'weight': 100,
                            'cfg': {'kind': kind, 'capacity': 1, 'scripts': ['hold', mid, 'hold'], 'sorts': 'int',
                                    'fixed': {'0': [2, 0], '1': [0, 0], '2': [1, 1]}}})
+        # explicit cancel inside a with-block, then the block's own exit
+        js.append({'harness': 'res', 'weight': 60,
+                   'cfg': {'kind': kind, 'capacity': 1, 'scripts': ['hold', 'withgiveup', 'hold'] if kind == 'res' else ['hold', 'withgiveup'],
+                           'sorts': 'int'}})
         # priorities need not be integers (0.7 and 0.2 share their integer part)
         if kind != 'res':
             js.append({'harness': 'res', 'weight': 60,
